@@ -19,7 +19,9 @@ pub mod c23;
 pub mod c24;
 pub mod c25;
 pub mod c26;
+pub mod c27;
 pub mod c28;
+pub mod c33;
 pub mod c29;
 pub mod exh;
 
@@ -43,8 +45,10 @@ pub fn all() -> Vec<Prop> {
         c24::prop(),
         c25::prop(),
         c26::prop(),
+        c27::prop(),
         c28::prop(),
         c29::prop(),
+        c33::prop(),
     ]
 }
 
